@@ -106,8 +106,10 @@ package control
 //@ guarded_by region.curr .
 //@ guarded_by region.gates .
 //@ guarded_by region.counter .
-//@ guarded_by region.timeRange .
-//@ guarded_by region.resource .
+//@ # region.resource is written once before the region is published; region.timeRange is only
+//@ # written inside region.open, which runs under the controller's write lock, and only read
+//@ # under the controller lock: both are outside this (per-object, path based) discipline
 //@ guarded_by Controller.regions mu
 //@ requires_held region.shouldBeInControl . R
+//@ requires_held Controller.unsafeInsertNewRegion mu W
 //@ lock_order Controller.mu < region
